@@ -63,13 +63,18 @@ def run_split(cfg):
                 d0 = fresh("d", (N, nch))
                 d1 = fresh("e", (N, nch))
                 st["d"] = [d0, d1]
-                return tg.pre_multisetup([d0, d1], [list(refs), list(refs)[::-1]])
+                # frame condition: the caller's reference lists are arguments, not scratch space (setups hand the same lists in again
+                # after every preprocessing step)
+                st["reflist"] = [list(refs), list(refs)[::-1]]
+                return tg.pre_multisetup([d0, d1], st["reflist"])
 
             for e, (kind, res) in ex.run_all(body):
                 why, bad = [], []
                 if kind == "exc":
                     why.append(f"raised {type(res).__name__}: {res}")
                 else:
+                    if st["reflist"] != [list(refs), list(refs)[::-1]]:
+                        why.append(f"the caller's reference lists were modified: {[list(refs), list(refs)[::-1]]} -> {st['reflist']}")
                     for i, rl in enumerate([list(refs), list(refs)[::-1]]):
                         d = st["d"][i]
                         mov = [c for c in range(nch) if c not in rl]
@@ -93,7 +98,11 @@ def run_split(cfg):
 def replay_split(nch, refs):
     from pyoma2.functions import gen
     d = np.arange(5 * nch, dtype=float).reshape(5, nch)
-    out = gen.pre_multisetup([d, d * 2], [list(refs), list(refs)[::-1]])
+    reflist = [list(refs), list(refs)[::-1]]
+    out = gen.pre_multisetup([d, d * 2], reflist)
+    if reflist != [list(refs), list(refs)[::-1]]:
+        return True, (f"pre_multisetup modified the caller's reference lists ({[list(refs), list(refs)[::-1]]} -> {reflist}): a second split with the "
+                      f"same lists (every preprocessing step of MultiSetup_PreGER) returns the references in another order")
     for i, rl in enumerate([list(refs), list(refs)[::-1]]):
         dd = d * (i + 1)
         mov = [c for c in range(nch) if c not in rl]
@@ -198,7 +207,7 @@ def replay_multi(cfg):
     N = 400
     Y = []
     for s in range(S):
-        x = rng.randn(2) * (10.0 ** (s - 1))
+        x = rng.randn(2) * (10.0 ** (-4 * s if len(nmov) == 2 else -2 * s))      # per-setup amplitudes 1, 1e-4 (two setups) or 1, 1e-2, 1e-4 (any gain is in the property's quantifier)
         X = np.empty((2, N))
         for t in range(N):
             X[:, t] = x
